@@ -282,6 +282,8 @@ func (g *c20lGater) InterceptSecured(_ network.Direction, p peer.ID, _ network.C
 func (g *c20lGater) InterceptUpgraded(network.Conn) (bool, control.DisconnectReason) { return true, 0 }
 
 type c20lEnv struct {
+	cancelConnB context.CancelFunc // ends the life cycle of B's connection only (host and pubsub stay up)
+
 	ctx    context.Context
 	codec  tmcodec.MarshalCodec
 	ids    [3]peer.ID
@@ -420,7 +422,13 @@ func c20lNewEnv(t *testing.T, st *vk.Stats) *c20lEnv {
 		}
 	}
 	for i := range e.conns {
-		c, err := NewConnection(ctx, quiet, e.hosts[i], e.codec)
+		cctx := ctx
+		if i == 1 {
+			// B's connection has a context of its own, so that the end-of-run probe can end the
+			// connection's life cycle while B's host and pubsub keep running
+			cctx, e.cancelConnB = context.WithCancel(ctx)
+		}
+		c, err := NewConnection(cctx, quiet, e.hosts[i], e.codec)
 		if err != nil {
 			e.broken = "NewConnection: " + err.Error()
 			return e
@@ -929,12 +937,62 @@ func TestVerifC20Libp2pLine(t *testing.T) {
 	if replay {
 		// the replacement window is a real-time race: a saved case is re-run until it
 		// shows the violation again (bounded); one reproduction suffices
-		for i := 0; i < 40 && e.broken == ""; i++ {
+		for i := 0; i < 40 && e.broken == "" && len(c.Ops) > 0; i++ {
 			c20lRunCase(t, st, e, c)
+		}
+		if !t.Failed() && e.broken == "" {
+			if d := e.afterLifeProbe(st); d != "" {
+				st.Fail(t, c20lCase{}, "", "relayed-after-connection-context-ended", "%s", d)
+			}
 		}
 		return
 	}
 	rapid.Check(t, func(rt *rapid.T) {
 		c20lRunCase(rt, st, e, c20lGen(rt))
 	})
+	if !t.Failed() && e.broken == "" {
+		if d := e.afterLifeProbe(st); d != "" {
+			st.Fail(t, c20lCase{}, "", "relayed-after-connection-context-ended", "%s", d)
+		}
+	}
+}
+
+// afterLifeProbe runs once, after the generated cases: B gets a handler that rejects everything,
+// then the context of B's *connection* is cancelled while B's host and pubsub keep running (the
+// host has its own context; Disconnect is not called). Whatever reaches B afterwards was not
+// accepted by any handler, so none of it may arrive at C. The waits only make the probe effective:
+// if B's pubsub does not decide a message in time the message is not judged.
+func (e *c20lEnv) afterLifeProbe(st *vk.Stats) string {
+	if e.cancelConnB == nil || !e.setHandler(1, c20lHSpec{Mode: 2, F: 2 /* rejected */}) {
+		return ""
+	}
+	e.cancelConnB()
+	e.conns[1].wg.Wait() // the connection's goroutines have ended
+	var ids []uint64
+	for k := 0; k < 4 && e.broken == ""; k++ {
+		id := e.newID(2)
+		if !e.publish(id, c20msg.Spec{Kind: uint8(k % 3), Salt: uint8(200 + k)}) {
+			return ""
+		}
+		if e.trB.waitFor(5*time.Second, func() bool { return e.trB.resolved(id) }) {
+			ids = append(ids, id)
+		}
+	}
+	st.LabelN("epilogue:after-life-probes-decided-at-B", int64(len(ids)))
+	if len(ids) == 0 {
+		st.Label("epilogue:after-life-probe-skipped(B decided nothing)")
+		return ""
+	}
+	leaked := func() bool {
+		for _, id := range ids {
+			if e.trC.seen[id] {
+				return true
+			}
+		}
+		return false
+	}
+	if e.trC.waitFor(1500*time.Millisecond, leaked) {
+		return fmt.Sprintf("after the context of B's connection was cancelled (host and pubsub still running, handler installed: rejects everything) %d messages published by A were decided by B's pubsub and at least one of them arrived at C; no handler accepted them", len(ids))
+	}
+	return ""
 }
